@@ -91,6 +91,14 @@ def nav_queries(stmt, order, ids, rng, budget=60):
         for c in (g.tokens if n <= 8 else rng.sample(g.tokens, 8)):
             qs.append({'op': 'index', 'g': ids[id(g)], 'i': 0, 'sw': False, 'sc': False, 'c': '',
                        'o': ids[id(c)], 'ri': g.token_index(c), 'rn': 0})
+            # the optional second argument (an index or a sibling token to start from) does not change the answer
+            pos = next(k for k, x in enumerate(g.tokens) if x is c)
+            if pos > 0:
+                st = rng.randrange(0, pos + 1)
+                qs.append({'op': 'index', 'g': ids[id(g)], 'i': st, 'sw': False, 'sc': False, 'c': '',
+                           'o': ids[id(c)], 'ri': g.token_index(c, st), 'rn': 0})
+                qs.append({'op': 'index', 'g': ids[id(g)], 'i': st, 'sw': True, 'sc': False, 'c': '',
+                           'o': ids[id(c)], 'ri': g.token_index(c, g.tokens[st]), 'rn': 0})
     total = sum(len(t.value) for t in leaves if True)
     text_len = len(''.join(t.value for t in project.leaves(stmt)))
     offs = list(range(0, text_len + 1)) if text_len <= 40 else sorted(rng.sample(range(0, text_len + 1), 40))
